@@ -1,5 +1,7 @@
 mod common;
+mod audit;
 mod conform;
+mod gcsched;
 mod refscheme;
 mod replay;
 mod data;
@@ -77,9 +79,12 @@ fn main() {
     let seed = std::env::var("VERIF_SEED").ok().and_then(|s| s.parse::<i64>().ok()).unwrap_or(0);
     let prop = prop.unwrap_or_else(|| usage());
     let mk = |p: &'static str| Ctx { prop: p, tier, seed, start: Instant::now() };
+    cap_memory(40);
     let code = match prop.as_str() {
         "C01" => props::c01::run(&mk("C01")),
         "C02" => props::c02::run(&mk("C02")),
+        "C03" => props::c03::run(&mk("C03")),
+        "C05" => props::c05::run(&mk("C05")),
         "C08" => props::c08::run(&mk("C08")),
         "C09" => props::c09::run(&mk("C09")),
         "C10" => props::c10::run(&mk("C10")),
